@@ -53,3 +53,26 @@ Fixpoint dedupe (seen : list Z) (l : list (Z * Z)) : list (Z * Z) :=
   end.
 (* the pinned tree reset `unique` for every class, so nothing was ever removed *)
 Definition dedupe_pinned (l : list (Z * Z)) : list (Z * Z) := l.
+
+(* ---- Dict structures on the stack (ebpfcat/hashmap.py Dict.__set_name__) ----
+   the key structure, then the value structure, each aligned down to 8 below
+   everything allocated so far; the class's stack pointer is left at the value *)
+Definition alloc_dict (stack ksize vsize : Z) : (Z * Z) * (Z * Z) * Z :=
+  let k := Z.land (stack - ksize) (-8) in
+  let v := Z.land (k - vsize) (-8) in
+  ((k, ksize), (v, vsize), v).
+
+(* a declaration list mixing locals and Dicts, in declaration order *)
+Inductive item := ILocal (s : Z) | IDict (ks vs : Z).
+Definition item_ok (i : item) : Prop :=
+  match i with ILocal s => pow2_size s | IDict ks vs => 0 <= ks /\ 0 <= vs end.
+Fixpoint alloc_items (stack : Z) (l : list item) : list (Z * Z) * Z :=
+  match l with
+  | [] => ([], stack)
+  | ILocal s :: tl =>
+      let a := alloc_local stack s in
+      let '(rest, st) := alloc_items a tl in ((a, s) :: rest, st)
+  | IDict ks vs :: tl =>
+      let '(kr, vr, st0) := alloc_dict stack ks vs in
+      let '(rest, st) := alloc_items st0 tl in (kr :: vr :: rest, st)
+  end.
